@@ -35,6 +35,12 @@ impl AES {
             AESAlgorithms::AES128_CTR => AES::aes_ctr::<Aes128Ctr>(key, iv, message)?,
             AESAlgorithms::AES256_CTR => AES::aes_ctr::<Aes256Ctr>(key, iv, message)?,
         };
+
+        // PKCS#7 padding of a 16 byte block is between 1 and 16 bytes long, the padding check above only compares it with the message length
+        if matches!(algo, AESAlgorithms::AES128_CBC | AESAlgorithms::AES256_CBC) && message.len() - result.len() > 16 {
+            return Err(BSVErrors::BlockModeError(block_modes::BlockModeError));
+        }
+
         Ok(result)
     }
 
